@@ -3,7 +3,7 @@
     of times and update counts. *)
 From Coq Require Import List ZArith Bool Lia.
 From FV Require Import Base Sched.
-From FVP Require Import Adapters_proofs Sched_proofs Confluence_proofs Termination_proofs.
+From FVP Require Import Adapters_proofs Sched_proofs Confluence_proofs Termination_proofs Confluence2_proofs.
 Import ListNotations.
 Open Scope Z_scope.
 
@@ -69,11 +69,11 @@ Proof.
   right. intros c Tc. rewrite (init_time_is_start cs c Tc). apply maxstart_ge; exact Tc.
 Qed.
 
-(** the total statement: with stateless links and delays sufficient on every cycle, EVERY order of considering the components ends
+(** the total statement: without DelayToPush adapters and with delays sufficient on every cycle, EVERY order of considering the components ends
     normally once the fuel exceeds an explicit bound, every component is at or beyond the end time, and any two
     orders end with the same update count and the same time for every component *)
 Lemma order_independent_total cs rank phi rank' endt m prio1 prio2 :
-  term_ok cs rank -> stateless cs -> sufficient cs phi rank' -> min_start cs = Some m -> m < endt ->
+  term_ok cs rank -> nopush cs -> sufficient cs phi rank' -> min_start cs = Some m -> m < endt ->
   (forall c, (c < length cs)%nat -> In c prio1) ->
   (forall c, (c < length cs)%nat -> In c prio2) ->
   forall fuel1 fuel2, (enough_fuel cs endt <= fuel1)%nat -> (enough_fuel cs endt <= fuel2)%nat ->
@@ -97,10 +97,10 @@ Proof.
   exists st1, acc1, st2, acc2. split; [exact R1|]. split; [exact R2|].
   intros c Tc.
   pose proof (init_running cs endt m Hm Hlt) as AR.
-  destruct (confluence cs W SL endt _ _ fuel1 fuel2 st1 acc1 st2 acc2 (pick_prio_ok cs prio1 H1) (pick_prio_ok cs prio2 H2)
+  destruct (confluence2 cs W SL endt _ _ fuel1 fuel2 st1 acc1 st2 acc2 (pick_prio_ok cs prio1 H1) (pick_prio_ok cs prio2 H2)
               AR R1 R2 c Tc) as [E1 E2].
   split; [exact E1|]. split; [exact E2|].
-  destruct (run_loop_pick_final cs W SL endt _ (pick_prio_ok cs prio1 H1) fuel1 _ _ _ _ (init_state_RInv cs endt W) AR R1) as [_ E].
+  destruct (run_loop_pick_final2 cs W SL endt _ (pick_prio_ok cs prio1 H1) fuel1 _ _ _ _ (init_state_RInv2 cs endt W) AR R1) as [_ E].
   pose proof (is_time_lt cs c Tc) as Lc.
   destruct (nth_error cs c) as [x|] eqn:Hx; [|apply nth_error_None in Hx; lia].
   pose proof (any_running_false st1 endt cs O E c x Hx) as A. simpl in A. apply A.
